@@ -8,7 +8,7 @@ Open Scope Q_scope.
    ones modelled, and the standard-deviation estimate falls through on a zero or overflowed estimate *)
 Theorem C18_source_as_modelled :
   halfrank_formula_as_modelled = true /\ infeasible_formula_as_modelled = true /\ pipelines_as_modelled = true /\
-  std_guards = [GPositiveFinite; GFinite].
+  std_guards = [GPositiveFinite; GPositiveFinite].
 Proof. repeat split; reflexivity. Qed.
 Print Assumptions C18_source_as_modelled.
 
